@@ -406,6 +406,23 @@ def call_shortcut_rule(repo: Repo, rep: Report, rid: str) -> None:
               f"expected {bad[0][3] if bad else ''}: input that ends after the first field would be accepted and the other fields fabricated from defaults", fi.loc())
 
 
+def meta_call_rule(repo: Repo, rep: Report, rid: str) -> None:
+    rep.rule(rid, "call syntax of every type: T(x) parses exactly when x is the only positional argument and is a stream or a buffer (a bytes object "
+                  "of exactly the type's size given to a bytes type is adopted); every other call constructs the value from all its arguments "
+                  "(MetaType.__call__ folded over 28 argument shapes)")
+    from ..folds import fold_meta_call
+
+    fi = repo.func("types/base.py", "MetaType.__call__")
+    fold = fold_meta_call(repo)
+    if fold is None:
+        rep.ok(rid, f"{fi.key}:fold", "not foldable with the evaluator's whitelist", fi.loc(), nontrivial=False)
+        return
+    bad = fold["bad"]
+    rep.check(not bad, rid, f"{fi.key}:fold", f"{fold['cases']} argument shapes agree with the reference",
+              f"MetaType.__call__ called with {bad[0][0] if bad else ''}: {bad[0][1] if bad else ''}, expected {bad[0][2] if bad else ''}: positional "
+              "construction whose first value is bytes-like is parsed (the other values dropped), or input meant to be parsed is adopted unparsed", fi.loc())
+
+
 def template_read_check_rule(repo: Repo, rep: Report, rid: str) -> None:
     rep.rule(rid, "every code template of the generated reader that fetches a sized block checks its length itself: the statements that slice the "
                   "block are appended after the template, so a template with 'buf = stream.read(N)' and no 'if len(buf) != N: raise EOFError()' lets a "
@@ -521,6 +538,7 @@ def run(repo: Repo, rep: Report, tier: str) -> None:
     from .memo import memo_rule
 
     memo_rule(repo, rep, "C08.R11")
+    meta_call_rule(repo, rep, "C08.R12")
 def residue_rule(repo: Repo, rep: Report, rid: str, cg: CallGraph, clo: set[str], roots: list[str]) -> None:
     """Shared-object attributes written in the closure must be reset before any read on entry (or not written at all)."""
     ea = EffectAnalysis(repo, cg)
